@@ -29,6 +29,8 @@ type bTreeContainers struct {
 func newBTreeContainers() *bTreeContainers {
 	return &bTreeContainers{
 		tree: treeNew(),
+		// a definitely-invalid key: nothing has been looked up yet
+		lastKey: ^uint64(0),
 	}
 }
 
@@ -94,6 +96,7 @@ type updater struct {
 
 func (btc *bTreeContainers) PutContainerValues(key uint64, typ byte, n int, mapped bool) {
 	a := updater{key, int32(n), typ, mapped}
+	btc.invalidateLast()
 	btc.tree.Put(key, a.update)
 }
 
@@ -218,13 +221,22 @@ func (btc *bTreeContainers) Repair() {
 // (new-container, write). If write is true, the container is used to
 // replace the given container.
 func (btc *bTreeContainers) Update(key uint64, fn func(*Container, bool) (*Container, bool)) {
+	btc.invalidateLast()
 	btc.tree.Put(key, fn)
+}
+
+// invalidateLast drops the last-lookup cache; used by operations that
+// replace containers in the tree without going through Put.
+func (btc *bTreeContainers) invalidateLast() {
+	btc.lastKey = ^uint64(0)
+	btc.lastContainer = nil
 }
 
 // UpdateEvery calls fn (existing-container, existed), and expects
 // (new-container, write). If write is true, the container is used to
 // replace the given container.
 func (btc *bTreeContainers) UpdateEvery(fn func(uint64, *Container, bool) (*Container, bool)) {
+	btc.invalidateLast()
 	e, _ := btc.tree.Seek(0)
 	// currently not handling the error from this, but in practice it has
 	// to be io.EOF.
